@@ -80,7 +80,8 @@ def cases(tier, seed):
             for sel in itertools.permutations(["H1", "X1", "H3", "BIN", "C3"], 2):
                 yield {"k": "tpl", "tpl": tpl, "target": target, "sel": list(sel)}
     for cell in usage_cells():
-        yield {"k": "usage", **cell}
+        for variant in range(len(NAME_VARIANTS) if cell["bad"] in ("h2.html", "h1.py") else 1):
+            yield {"k": "usage", "variant": variant, **cell}
 
 
 def ev_mix(c) -> R:
@@ -159,28 +160,32 @@ def ev_tpl(c) -> R:
     return r
 
 
+NAME_VARIANTS = [("h1", "h3", "h2"), ("a", "b", "z"), ("m", "n", "c"), ("x", "y", "q"), ("p1", "p2", "w"), ("k", "l", "o"), ("aa", "ab", "ac"), ("s", "t", "u")]
+
+
 def ev_usage(c) -> R:
+    """Usage-error cells.  Arguments are given relative to cwd = root, so that
+    the order in which the tool iterates its *set* of paths is a function of
+    the names only (hash seed fixed); several name variants make both relative
+    orders of the offending and the healthy files occur."""
     r = R()
+    v = NAME_VARIANTS[c.get("variant", 0)]
+    py1, py2, html = v[0] + ".py", v[1] + ".py", v[2] + ".html"
     root = fresh_dir("c11")
-    recipe = {}
-    for k in ("H1", "X1", "H3"):
-        recipe.update(KINDS[k][1])
-    recipe["h2.html"] = "<p>x</p>\n"
-    recipe["data.xyz"] = "data\n"
+    recipe = {py1: "code()\n", py2: "# SPDX-FileCopyrightText: 2001 Old\n# SPDX-License-Identifier: ISC\n\ncode()\n", html: "<p>x</p>\n",
+              v[0] + "2.html": "<p>y</p>\n", "data.xyz": "data\n"}
     materialise(root, recipe)
-    names = ["h3.py", "h3.py", "h3.py"]
-    healthy = {"h1.py": ["h3.py", "h2.html"], "h2.html": ["h1.py", "h3.py"]}.get(c["bad"], ["h1.py", "h3.py"])
-    if c["name"] == "single-line-unsupported":
-        healthy = ["h1.py", "h3.py"]
+    bad = {"h2.html": html, "h1.py": py1}.get(c["bad"], c["bad"])
+    healthy = [py1, py2]
     if c["name"] == "multi-line-unsupported":
-        healthy = ["h2.html", "h2.html"]
-    names = list(healthy[:2])
-    if c["bad"]:
-        names.insert(c["pos"], c["bad"])
-    else:
-        names.append("h1.py" if "h1.py" not in names else "h2.html")
+        healthy = [html, v[0] + "2.html"]
+    names = list(healthy)
+    if bad:
+        names.insert(c["pos"], bad)
     before = read_tree(root)
-    res = annot.annotate(root, c["argv"], [root / n for n in dict.fromkeys(names)])
+    from ..cli import run_cli
+
+    res = run_cli(["annotate", *c["argv"], *dict.fromkeys(names)], cwd=str(root))
     after = read_tree(root)
     label = f"annotate {c['argv']} {names}"
     if res.exc:
